@@ -93,7 +93,19 @@ func (rd *realDecoder) getUVarint() (uint64, error) {
 	return tmp, nil
 }
 
+// getArrayLength reads the length of an array that cannot be null: a null
+// array (-1) is read as an empty one, so that callers can size slices by the
+// result. Use getNullableArrayLength where null and empty differ.
 func (rd *realDecoder) getArrayLength() (int, error) {
+	n, err := rd.getNullableArrayLength()
+	if err == nil && n < 0 {
+		n = 0
+	}
+	return n, err
+}
+
+// getNullableArrayLength returns -1 for a null array.
+func (rd *realDecoder) getNullableArrayLength() (int, error) {
 	if rd.remaining() < 4 {
 		rd.off = len(rd.raw)
 		return -1, ErrInsufficientData
@@ -103,7 +115,7 @@ func (rd *realDecoder) getArrayLength() (int, error) {
 	if tmp > rd.remaining() {
 		rd.off = len(rd.raw)
 		return -1, ErrInsufficientData
-	} else if tmp > 2*math.MaxUint16 {
+	} else if tmp > 2*math.MaxUint16 || tmp < -1 {
 		return -1, errInvalidArrayLength
 	}
 	return tmp, nil
